@@ -201,6 +201,8 @@ TEXT_ATTRS = [
     ("style", "fill:green;font-style:italic"),
 ]
 
+GROUP_EXTRA = [("font-size", "12"), ("font-family", "serif"), ("letter-spacing", "1"), ("text-anchor", "middle"), ("class", "k"), ("font-weight", "bold"), ("word-spacing", "2")]
+
 NOISE = [
     "<!-- a comment -->",
     "<title>t</title>",
@@ -283,6 +285,9 @@ class _Doc:
             a.append(("opacity", d(st.sampled_from(["0.5", "0.9"]))))
         if self.clips and d(st.integers(0, 7)) == 0:
             a.append(("clip-path", f"url(#{d(st.sampled_from(self.clips))})"))
+        if d(st.integers(0, 3)) == 0:
+            # typography / unknown attributes on a group (the usual way text is styled); no inheritance rule exists for them
+            a += d(st.permutations(GROUP_EXTRA))[: d(st.integers(2, 4))]
         gid = None
         if d(st.integers(0, 3)) == 0:
             gid = self.new_id()
